@@ -79,6 +79,17 @@ def run(ctx, report):
                 e = an.rvalue_expr(rets[0][2].rv, rets[0][0], rets[0][1])
                 ok = any(P.match(c, KECC) is not None for c in e.calls()) and len(P.nontransparent_calls(e)) <= 2
                 why = short(e)
+        if not ok:
+            # Keccak256::digest(b).into() / <[u8;32]>::from(..): a value-preserving conversion of the 32-byte output
+            from rules.c01 import ret_exprs
+            rs = ret_exprs(an)
+            if len(rs) == 1 and f.output and f.output.get("k") == "array" and f.output.get("n") == 32:
+                es = strip(rs[0][2])
+                for _ in range(3):
+                    if es.k == "call" and es.a[0].name in ("into", "from") and es.a[0].trait in ("std::convert::Into", "std::convert::From") and len(es.a[1]) == 1:
+                        es = strip(es.a[1][0])
+                if P.match(es, KECC) is not None:
+                    ok = True
         report.check("DIGEST", "digest", ok, "digest(b) = Keccak256::digest(b) copied into [u8;32]", "digest() is not Keccak-256 of its whole argument: " + why, fn=f.path, sp=f.span, config=cfg)
 
     # ---- uncompressed forms
